@@ -163,4 +163,15 @@ P["C18"]["extra_modules"] = P["C18"]["extra_modules"] + ["Irc.Props.C18Frame"]
 # (round 8; Irc/Props/C18General.lean + C18GeneralLemmas0..8)
 P["C18"]["extra_modules"] = P["C18"]["extra_modules"] + ["Irc.Props.C18General"]
 # the user records carry the source string that every relayed copy is prefixed with (C01: "truly attributed")
-P["C01"]["st_any"] = _fields("user", [2, 3, 5, 6])
+P["C01"]["st_any"] = _both(_fields("user", [2, 3, 5, 6]), st_kinds({"member"}), _fields("chan", [2, 11, 12, 13, 14, 15]))
+# ... and the member maps and rank lists ARE the audience of a channel message (status-prefixed targets walk the rank lists)
+
+# state components a property's decision READS are compared after every operation, whatever command changed them
+# (a divergence there is inside the property's footprint even when the command is not one of its verbs)
+P["C10"]["st_any"] = _both(_fields("chan", [2, 5, 8, 9, 11, 12, 13, 14, 15]), st_kinds({"member"}), _fields("user", [2, 6, 8]))
+P["C07"]["st_any"] = _both(_fields("chan", [2, 5, 6, 7, 8, 9, 10]), st_kinds({"member"}), _fields("user", [2, 6, 9, 10]))
+P["C12"]["st_any"] = _both(_fields("chan", [2, 5]), st_kinds({"member"}), _fields("user", [2, 7, 9]))
+P["C09"]["st_any"] = _both(_fields("chan", [2, 3, 4, 5]), _fields("user", [2, 10]), st_kinds({"member"}))
+P["C11"]["st_any"] = _both(_oper_bits, st_kinds({"wallops"}))
+P["C14"]["st_any"] = _both(st_kinds({"ban"}), _fields("chan", [2, 8, 9, 10]), _fields("user", [2, 6]))
+P["C06"]["st_any"] = _both(st_kinds({"wallops"}), _fields("user", [2, 9, 10]))
